@@ -7,6 +7,7 @@ HGF = "src/hashgraph/hashgraph.go"
 CORE = "src/node/core.go"
 NODEF = "src/node/node.go"
 RPC = "src/node/node_rpc.go"
+PSF = "src/peers/peer_set.go"
 
 def M(id, prop, rule, *edits):
     return {"id": id, "prop": prop, "rule": rule, "edits": list(edits)}
@@ -90,6 +91,19 @@ MUTANTS = [
  M("c05-eager-sync-unlocked", "C05", "C05.lock", (RPC, "\tn.coreLock.Lock()\n\terr := n.sync(cmd.FromID, cmd.Events)\n\tn.coreLock.Unlock()\n", "\terr := n.sync(cmd.FromID, cmd.Events)\n")),
  M("c05-new-pool-writer", "C05", "C05.writers", (CORE, "func (c *core) busy() bool {\n", "func (c *core) busy() bool {\n\tif len(c.transactionPool) > 10000 {\n\t\tc.transactionPool = c.transactionPool[:10000]\n\t}\n")),
  M("c05-return-on-commit-error", "C05", "C05.once", (HGF, "\t\t\t\t\th.logger.Warningf(\"Failed to commit block %d\", block.Index())\n", "\t\t\t\t\th.logger.Warningf(\"Failed to commit block %d\", block.Index())\n\t\t\t\t\treturn err\n")),
+ # ---- C19
+ M("c19-sm-no-plus1", "C19", "C19.sm", (PSF, "val := 2*peerSet.Len()/3 + 1", "val := 2 * peerSet.Len() / 3")),
+ M("c19-sm-rounding", "C19", "C19.sm", (PSF, "val := 2*peerSet.Len()/3 + 1", "val := (2*peerSet.Len() + 1) / 3")),
+ M("c19-sm-ceil", "C19", "C19.sm", (PSF, "val := 2*peerSet.Len()/3 + 1", "val := int(math.Ceil(float64(2*peerSet.Len()) / float64(3)))")),
+ M("c19-sm-two-thirds-of-n-plus-1", "C19", "C19.sm", (PSF, "val := 2*peerSet.Len()/3 + 1", "val := 2 * (peerSet.Len() + 1) / 3")),
+ M("c19-trust-floor", "C19", "C19.trust", (PSF, "val = int(math.Ceil(float64(peerSet.Len()) / float64(3)))", "val = int(math.Floor(float64(peerSet.Len()) / float64(3)))")),
+ M("c19-trust-quarter", "C19", "C19.trust", (PSF, "val = int(math.Ceil(float64(peerSet.Len()) / float64(3)))", "val = int(math.Ceil(float64(peerSet.Len()) / float64(4)))")),
+ M("c19-trust-n2-zero", "C19", "C19.trust", (PSF, "if len(peerSet.Peers) > 1 {", "if len(peerSet.Peers) > 2 {")),
+ M("c19-use-anchor-ge", "C19", "C19.use", (HGF, "if len(block.Signatures) > peerSet.TrustCount() &&", "if len(block.Signatures) >= peerSet.TrustCount() &&")),
+ M("c19-use-round-gt", "C19", "C19.use", (HGF, "\tif c >= parentRoundPeerSet.SuperMajority() {", "\tif c > parentRoundPeerSet.SuperMajority() {")),
+ M("c19-use-sm-minus-one", "C19", "C19.use", (HGF, "\treturn c >= peers.SuperMajority(), nil", "\treturn c >= peers.SuperMajority()-1, nil")),
+ M("c19-mutable-peerset", "C19", "C19.use", (PSF, "func (peerSet *PeerSet) clearCache() {", "// Add appends a peer in place.\nfunc (peerSet *PeerSet) Add(p *Peer) {\n\tpeerSet.Peers = append(peerSet.Peers, p)\n\tpeerSet.ByPubKey[p.PubKeyString()] = p\n}\n\nfunc (peerSet *PeerSet) clearCache() {")),
+ M("c19-with-new-peer-dup", "C19", "C19.use", (PSF, "\tif _, ok := peerSet.ByID[peer.ID()]; !ok {\n\t\tpeers = append(peers, peer)\n\t}", "\tpeers = append(peers, peer)")),
 ]
 
 BENIGN = [
@@ -110,4 +124,10 @@ BENIGN = [
 
  B("c05-benign-defer-unlock", "C05", (RPC, "\tn.coreLock.Lock()\n\terr := n.sync(cmd.FromID, cmd.Events)\n\tn.coreLock.Unlock()\n", "\terr := func() error {\n\t\tn.coreLock.Lock()\n\t\tdefer n.coreLock.Unlock()\n\t\treturn n.sync(cmd.FromID, cmd.Events)\n\t}()\n")),
  B("c05-benign-locals-renamed", "C05", (CORE, "\ttxs := len(c.transactionPool)\n", "\tnTx := len(c.transactionPool)\n"), (CORE, "c.transactionPool = c.transactionPool[txs:]", "c.transactionPool = c.transactionPool[nTx:]")),
+
+ B("c19-benign-sm-n-minus", "C19", (PSF, "val := 2*peerSet.Len()/3 + 1", "val := peerSet.Len() - (peerSet.Len()-1)/3")),
+ B("c19-benign-sm-local", "C19", (PSF, "val := 2*peerSet.Len()/3 + 1", "n := peerSet.Len()\n\t\tval := n*2/3 + 1")),
+ B("c19-benign-trust-int", "C19", (PSF, "val = int(math.Ceil(float64(peerSet.Len()) / float64(3)))", "val = (peerSet.Len() + 2) / 3\n\t\t\t_ = math.Pi")),
+ B("c19-benign-no-memo", "C19", (PSF, "\tif peerSet.superMajority == nil {\n\t\tval := 2*peerSet.Len()/3 + 1\n\t\tpeerSet.superMajority = &val\n\t}\n\treturn *peerSet.superMajority", "\treturn 2*peerSet.Len()/3 + 1")),
+ B("c19-benign-swapped-cmp", "C19", (HGF, "\tif c >= parentRoundPeerSet.SuperMajority() {", "\tif parentRoundPeerSet.SuperMajority() <= c {")),
 ]
